@@ -60,6 +60,12 @@ def _ctor_sizing(prog, c, cls, field, depth=0):
             a = c.nodes[c.strip(c.call_args(n)[0], 'all')]
             if on['k'] == 'MemberExpr' and on.get('member') == field and 'cv' in a:
                 return ('const', int(a['cv']))
+    # K unconditional appends to the (default-constructed, hence empty) member in a straight-line body
+    pushes_ = [n for n in c.calls() if n['callee']['name'] in ('push_back', 'emplace_back') and c.call_obj(n) is not None and
+               c.nodes[c.strip(c.call_obj(n), 'all')]['k'] == 'MemberExpr' and c.nodes[c.strip(c.call_obj(n), 'all')].get('member') == field]
+    if pushes_ and not any(True for _ in c.all_nodes({'IfStmt', 'ForStmt', 'WhileStmt', 'DoStmt', 'SwitchStmt', 'CXXForRangeStmt', 'ConditionalOperator', 'CXXTryStmt'})) and \
+            not any(i.get('field') == field and i['written'] and c.nodes[c.strip(i['expr'], 'noop')].get('args') for i in c.rec.get('inits', [])):
+        return ('const', len(pushes_))
     # delegation to another constructor of the class
     if depth < 3:
         for n in c.all_nodes({'CXXConstructExpr'}):
@@ -119,6 +125,8 @@ def vector_size_invariant(prog, cls, field):
                 a = f.nodes[f.strip(f.call_args(n)[0], 'all')]
                 if 'cv' in a and int(a['cv']) == K:
                     continue
+            if f.kind == 'ctor' and c['name'] in ('push_back', 'emplace_back', 'reserve') and _ctor_sizing(prog, f, cls, field) == ('const', K):
+                continue      # the appends that make up the K elements in this constructor (counted by _ctor_sizing)
             return None
         # whole-vector assignment outside the constructors
         for g, nid, rhs in _c18.field_writes(prog, cls, field):
@@ -847,7 +855,8 @@ def group_writer_rule(prog, res, rule='group-write'):
     else:
         inner = io_only(lp[3])
         if len(inner) == 1 and inner[0][0] == 'call' and inner[0][1].qname.endswith('Parameter::write'):
-            sub = inner[0][2]
+            sub = {k_: (re.sub(r'(local:\w+)@\d+', r'\1', v_) if isinstance(v_, str) else v_) for k_, v_ in inner[0][2].items()}     # locals of an inlined member carry a scope suffix
+            lp = tuple(lp[:2]) + (re.sub(r'@\d+$', '', lp[2]) if isinstance(lp[2], str) else lp[2],) + tuple(lp[3:])
             if sub.get('arg1') in ('-(arg1)', '-arg1') and sub.get('arg0') == 'arg0' and sub.get('arg2') == 'arg2' and sub.get('this') in ('this.parameter(local:%s)' % lp[2], 'this._parameters[local:%s]' % lp[2], 'this._parameters[(unsigned long)local:%s]' % lp[2], 'this._parameters.at(local:%s)' % lp[2]):
                 ck.ok('parameters', ck.where(lp), 'parameter(i).write(f, -groupIdx, dataStart) for i in [0, nbParameters)')
             else:
